@@ -49,6 +49,15 @@ func newRefTree() *refTree { return &refTree{memo: map[[2]int]hash32{}} }
 
 func (t *refTree) size() int { return len(t.leaves) }
 
+// clone copies the tree (leaf byte slices are immutable and shared).
+func (t *refTree) clone() *refTree {
+	c := &refTree{leaves: append([][]byte(nil), t.leaves...), lh: append([]hash32(nil), t.lh...), memo: make(map[[2]int]hash32, len(t.memo))}
+	for k, v := range t.memo {
+		c.memo[k] = v
+	}
+	return c
+}
+
 func (t *refTree) add(d []byte) {
 	t.leaves = append(t.leaves, clone(d))
 	t.lh = append(t.lh, refLeafHash(d))
